@@ -80,6 +80,9 @@ def generate(rng, focus, tier="quick"):
     # a second portfolio on the same broker, rebalanced by its own construction model at the same instants
     cfg["neighbour"] = rng.random() < 0.35
     cfg["cash2"] = rng.choice([1e4, 4e5, 1e6])
+    # the neighbour's sizer has settings of its own: another buffer, another leverage
+    cfg["cash_buffer2"] = rng.choice([0.0, 0.02, 0.2, 0.6])
+    cfg["leverage2"] = rng.choice([0.25, 1.0, 3.0, 4.0])
     if uk == "static":
         k = rng.randrange(1, n_assets + 1)
         cfg["universe"] = sorted(rng.sample(assets, k))
@@ -325,9 +328,10 @@ def _run(plan, ctx):
         broker.create_portfolio("q", "neighbour")
         broker.subscribe_funds_to_portfolio("q", cfg["cash2"])
         if cfg["long_only"]:
-            sz2 = DollarWeightedCashBufferedOrderSizer(broker, "q", qb, cash_buffer_percentage=cfg["cash_buffer"])
+            sz2 = DollarWeightedCashBufferedOrderSizer(broker, "q", qb,
+                                                       cash_buffer_percentage=cfg.get("cash_buffer2", cfg["cash_buffer"]))
         else:
-            sz2 = LongShortLeveragedOrderSizer(broker, "q", qb, gross_leverage=cfg["leverage"])
+            sz2 = LongShortLeveragedOrderSizer(broker, "q", qb, gross_leverage=cfg.get("leverage2", cfg["leverage"]))
         nb["sizer"] = sz2
         nb["pcm"] = PortfolioConstructionModel(broker, "q", uni, sz2, FixedWeightPortfolioOptimiser(data_handler=qb),
                                                alpha_model=nb["alpha"], data_handler=qb)
